@@ -217,6 +217,13 @@ def check_pack_detector(chk, detector, n, kinds, where):
     if where in ('contract', 'abstract_contract'):
         target = b.contract('Contract' if where == 'contract' else 'Abstract', 'C', [b.cpart(b.state_var(t, 'v%d' % i)) for i, t in enumerate(types)])
         su = b.source_unit([b.supart(target)])
+    elif where in ('after_contract_with_1', 'after_contract_with_2', 'before_contract_with_2'):
+        # another contract with one or two state variables (never packable itself) in the same file: nothing of it may reach the verdict on C
+        kp, prep = size_vars(2 if where.endswith('2') else 1, 'p')
+        pre = pre + prep
+        other = b.contract('Contract', 'P', [b.cpart(b.state_var(b.ty('Uint', Int(k_ * 8, 'u16')), 'w%d' % i)) for i, k_ in enumerate(kp)])
+        target = b.contract('Contract', 'C', [b.cpart(b.state_var(t, 'v%d' % i)) for i, t in enumerate(types)])
+        su = b.source_unit([b.supart(other), b.supart(target)] if where.startswith('after') else [b.supart(target), b.supart(other)])
     elif where == 'struct_file':
         target = b.struct('S', [(t, 'v%d' % i) for i, t in enumerate(types)])
         su = b.source_unit([b.supart(target)])
@@ -332,7 +339,7 @@ def body(chk):
     maxlen = 5 if chk.quick else 7
     nmem = 4 if chk.quick else 5
     chk.bounds = {'storage_slots_used: vector length': '0..%d' % maxlen, 'member sizes': '8*k bits, k in 1..32',
-                  'pack detectors: members per contract/struct': '1..%d' % nmem, 'containers': 'contract, abstract contract (state variables); file level, contract, abstract contract, library, interface (structs)',
+                  'pack detectors: members per contract/struct': '1..%d' % nmem, 'containers': 'contract, abstract contract, contract before / after another contract with 1-2 symbolic members (state variables); file level, contract, abstract contract, library, interface (structs)',
                   'outside': 'longer member lists; members of non-elementary type (all count 256 bits, covered by get_type_size)'}
     chk.assumptions = ['slice::sort contract: result is a sorted permutation of the input',
                        'Vec/HashSet contracts of DESIGN.md 2.4', 'parser produces uintN/intN with N in 8..256 step 8 and bytesN with N in 1..32']
@@ -347,6 +354,9 @@ def body(chk):
     cases.append(('pack_struct_variables', 3, ['uint'], 'struct_contract'))
     cases.append(('pack_struct_variables', nmem, ['uint'], 'struct_contract'))
     cases.append(('pack_storage_variables', 3, ['uint', 'bytes'], 'abstract_contract'))
+    for w in ('after_contract_with_1', 'after_contract_with_2', 'before_contract_with_2'):
+        cases.append(('pack_storage_variables', 3, ['uint'], w))
+        cases.append(('pack_storage_variables', 2, ['uint'], w))
     for holder in ('struct_abstract', 'struct_library', 'struct_interface'):
         cases.append(('pack_struct_variables', 3, ['uint'], holder))
     chk.parallel(lambda c, it: check_pack_detector(c, *it), cases)
